@@ -160,6 +160,17 @@ def has_q(v):
     return False
 
 
+def has_param_u(v):
+    """does the value contain the marker of a parameter that is evaluated at the call sites?"""
+    if v[0] == "U":
+        return isinstance(v[1], str) and v[1].startswith("parameter")
+    if v[0] == "A":
+        return any(has_param_u(x) for x in v[1])
+    if v[0] == "T":
+        return any(has_param_u(x) for s in v[1] for x in s)
+    return False
+
+
 def radd(a, b):
     if a is None or b is None:
         return None
@@ -545,7 +556,25 @@ class Eval:
         if re.search(r"__m\d+|v128|int\d+x\d+|\[i(32|64); \d+\]", ty):
             return {U("parameter `%s` of %s (evaluated at the call sites instead)" % (
                 self.fn.local_name(l), self.fn.name.rsplit("::", 1)[-1]))}
+        if self._struct_with_ints(ty):
+            return {U("parameter `%s` of %s (a struct with integer fields; evaluated at the "
+                      "call sites instead)" % (self.fn.local_name(l),
+                                               self.fn.name.rsplit("::", 1)[-1]))}
         return {("S", ZERO)}
+
+    def _struct_with_ints(self, ty):
+        """is `ty` (by value or behind a reference) a crate-local plain struct that has an
+        i32/i64 field or an array/slice of them (it may carry a rounding constant)?"""
+        base = re.sub(r"^&(?:'\w+ )?(?:mut )?", "", ty or "").strip()
+        base = re.sub(r"<.*$", "", base)
+        if not base or base in self.INT_TYS:
+            return False
+        for k, a in self.prog.adts.items():
+            if a.get("kind") == "Struct" and (a["name"] == base or k.endswith("::" + base)):
+                for fld in a["variants"][0]["fields"]:
+                    if re.search(r"(^|[\[& ])i(32|64)\b", fld[1]):
+                        return True
+        return False
 
     def ev_rvalue(self, rv, at):
         k = rv[0]
@@ -592,6 +621,12 @@ class Eval:
                     elems |= {v for v in self.ev_op(o, at) if not is_rec(v)}
                 if all(is_zero(v) for v in elems):
                     return {("S", ZERO)}
+                adt = self.prog.adts.get(rv[2]) if isinstance(rv[2], str) else None
+                if adt and adt.get("kind") == "Struct" and rv[4]:
+                    # a plain struct keeps its fields apart (a rounding constant that travels
+                    # in a field is read back by the field projection)
+                    return {("T", tuple(frozenset(v for v in self.ev_op(o, at) if not is_rec(v))
+                                        for o in rv[4]))}
                 return {("A", frozenset(elems))}
             return {("S", ZERO)}
         if k == "rep":
@@ -952,8 +987,7 @@ def budget(rep, prog, rule, floor=40):
             n += 1
             key = "%s|%s@%s" % (f.name, c.method or short(c.name), _sink_id(f, c))
             vals, tainted = eval_sink(prog, f, None, c.args[ai], at)
-            if f.kind == "closure" or any((v[0] == "U" and v[1].startswith("parameter")) or has_q(v)
-                                          for v in vals):
+            if f.kind == "closure" or any(has_param_u(v) or has_q(v) for v in vals):
                 r2 = via_callers(prog, f, c, ai)
                 if r2 is not None:
                     vals, tainted = r2
